@@ -326,25 +326,81 @@ def _r2(ctx, pkg):
         ctx.missing("R2", "allowed_species.setter", (NF, 0), "setter vanished")
         return
     sfl = Flow(st, NF)
-    clears = {f.value[1][2] for f in sfl.facts if f.kind == "call" and f.target == "clear" and f.value[1][0] == "attr" and f.value[1][1] == SELF}
-    resets = {f.target: simp(f.value) for f in sfl.facts if f.kind == "attrstore" and f.extra.get("obj") == SELF}
+    SETTER = "allowed_species.setter"
+    SK = ("attr", SELF, "_skipped_reactions")
+    STATE = ("reaction_list", "_skipped_reactions") + CACHES
+
+    def members(r):
+        """the attributes of self a receiver stands for: itself, or -- for the variable of a loop over a display of them -- each"""
+        r = simp(r)
+        if r[0] == "attr" and r[1] == SELF:
+            return [r[2]]
+        if r[0] == "elem" and simp(r[1])[0] in ("tuple", "list") and all(e[0] == "attr" and e[1] == SELF for e in simp(r[1])[1]):
+            return [e[2] for e in simp(r[1])[1]]
+        return None
+    emptied, unread = {}, []                 # attribute -> seq of the statement that empties it;  writes this rule cannot attribute
+    al = {name: simp(lst[0][0])[2] for name, lst in sfl.assigns.items() if lst and all(simp(v) == simp(lst[0][0]) for v, *_ in lst)
+          and simp(lst[0][0])[0] == "attr" and simp(lst[0][0])[1] == SELF and simp(lst[0][0])[2] in STATE}
+    for f in sfl.facts:
+        if f.kind == "call" and f.target == "clear" and f.value and f.value[0] == "meth":
+            ms = members(f.value[1])
+            if ms is None:
+                unread.append(f)
+            else:
+                for a_ in ms:
+                    emptied.setdefault(a_, f.seq)
+        elif f.kind == "mutate" and f.op == "clear" and f.target in al:
+            emptied.setdefault(al[f.target], f.seq)
+        elif f.kind == "attrstore" and f.extra.get("obj") == SELF and f.target in STATE:
+            v = simp(f.value)
+            if v in (("list", ()), ("call", ("global", "list"), (), ()), ("call", ("global", "set"), (), ()), ("set", ())) and f.op == "=":
+                emptied.setdefault(f.target, f.seq)
+            else:
+                unread.append(f)
+        elif f.kind == "call" and f.value and f.value[0] == "meth" and simp(f.value[1]) == SELF and f.target not in ("add_reaction", "_add_reaction"):
+            unread.append(f)                # a helper of the class: what it resets is not read here
+        elif f.kind == "call" and f.value and f.value[0] == "call" and any(x == ("global", "setattr") for x in walk(f.value)):
+            unread.append(f)
     # by role: the snapshot is the list the re-adding loop iterates
-    adds = [f for f in sfl.facts if f.kind == "call" and f.target == "add_reaction" and f.loops]
-    it0 = simp(adds[0].loops[0].iter) if adds else None
-    rec = [e for lst in sfl.assigns.values() for e in lst if it0 is not None and simp(e[0]) == it0]
-    ok_rec = bool(rec) and sorted(_concat_operands(simp(rec[0][0]))) == sorted([RL, ("attr", SELF, "_skipped_reactions")])
-    seq_rec = rec[0][4] if rec else 0
-    reset_after = all(f.seq > seq_rec for f in sfl.facts if (f.kind == "attrstore" and f.target in ("reaction_list", "_skipped_reactions")) or (f.kind == "call" and f.target == "clear"))
-    re_add = [f for f in sfl.facts if f.kind == "call" and f.target == "add_reaction" and f.loops and simp(f.loops[0].iter) == (simp(rec[0][0]) if rec else None)]
-    # emptied: re-bound to a new empty list, or cleared in place (the snapshot is a new list, see ok_rec)
-    emptied = lambda attr: simp(resets.get(attr, ("?",))) in (("list", ()), ("call", ("global", "list"), (), ())) or attr in clears
-    ok = {"_reactants", "_products"} <= clears | set(resets) and emptied("reaction_list") and emptied("_skipped_reactions") and ok_rec and reset_after and len(re_add) == 1
-    ctx.check(ok, "R2", "allowed_species.setter", (NF, st.lineno),
+    adds = [f for f in sfl.facts if f.kind == "call" and f.target in ("add_reaction", "_add_reaction") and f.value and f.value[0] == "meth" and simp(f.value[1]) == SELF]
+    looped = [f for f in adds if f.loops]
+    if not looped or any(f.loops[0].kind != "for" for f in looped) or len(looped) != 1:
+        if not adds and not unread:
+            ctx.bad("R2", SETTER, (NF, st.lineno), "the setter installs a new allowed list without re-examining the reactions through add_reaction: reactions admitted under the old list stay, "
+                    "skipped ones are never re-admitted", expected="for reaction in reaction_list + _skipped_reactions: self.add_reaction(reaction)", found="no call of add_reaction")
+        else:
+            ctx.unrec("R2", SETTER, (NF, st.lineno), "how the setter re-examines the recorded reactions is not understood (expected one `for` loop calling self.add_reaction)")
+        return
+    radd = looped[0]
+    it0 = simp(radd.loops[0].iter)
+    rec = [e for lst in sfl.assigns.values() for e in lst if simp(e[0]) == it0]
+    from .c09 import _unwrap_seq
+    snap = _unwrap_seq(it0)
+    while snap[0] == "call" and snap[1] in (("global", "deque"), ("attr", ("global", "collections"), "deque")) and len(snap[2]) == 1 and not snap[3]:
+        snap = _unwrap_seq(snap[2][0])
+    ops = [simp(o) for o in _concat_operands(snap)]
+    arg_ok = len(radd.value[3]) == 1 and simp(radd.value[3][0])[0] == "elem"
+    if not rec or not all(o[0] == "attr" and o[1] == SELF for o in ops) or not arg_ok:
+        ctx.unrec("R2", SETTER, (NF, radd.line), f"the collection whose members are re-added is not a recorded concatenation of the network's own lists: {show(it0)[:100]}")
+        return
+    seq_rec = rec[0][4]
+    want = sorted([RL, SK])
+    missing = [a_ for a_ in STATE if a_ not in emptied]
+    early = [a_ for a_ in STATE if a_ in emptied and emptied[a_] < seq_rec and a_ in ("reaction_list", "_skipped_reactions")]
+    late = [a_ for a_ in STATE if a_ in emptied and emptied[a_] > radd.seq]
+    if (missing or late) and unread:
+        ctx.unrec("R2", SETTER, (NF, unread[0].line), f"{missing or late} may be reset by a statement this rule cannot read ({unread[0].kind} {unread[0].target})")
+        return
+    ok = sorted(ops) == want and not missing and not early and not late
+    ctx.check(ok, "R2", SETTER, (NF, st.lineno),
               "the setter records reaction_list + _skipped_reactions, clears all caches, and re-adds every recorded reaction through add_reaction",
-              found=f"clears {sorted(clears)}, resets {sorted(resets)}, recorded={show(simp(rec[0][0]))[:60] if rec else None}, re-add loops {len(re_add)}")
+              found=f"emptied {sorted(emptied)}, recorded={show(snap)[:60]}, emptied before the record was taken: {early}, after the re-adding: {late}")
     # the new allowed list is installed before re-adding
-    al = [f for f in sfl.facts if f.kind == "attrstore" and f.target == "_allowed_species"]
-    ctx.check(len(al) == 1 and re_add and al[0].seq < re_add[0].seq, "R2", "allowed_species.setter:order", (NF, st.lineno), "the new allowed list is installed before the reactions are re-examined")
+    al_ = [f for f in sfl.facts if f.kind == "attrstore" and f.target == "_allowed_species"]
+    if len(al_) != 1:
+        ctx.unrec("R2", SETTER + ":order", (NF, st.lineno), f"expected one assignment of self._allowed_species in the setter, found {len(al_)}")
+    else:
+        ctx.check(al_[0].seq < radd.seq, "R2", SETTER + ":order", (NF, st.lineno), "the new allowed list is installed before the reactions are re-examined")
 
 
 class _Strings:
